@@ -29,6 +29,9 @@ def run_campaign(chk, b, profiles, ncases, facets, sig_prefix, nontrivial_fn, ru
                 stats["ntkey"] += 1
                 for k in key:
                     stats["nt:" + k] += 1
+            stats["table_witnesses_judged"] += nt.get("table_witnesses", 0)
+            stats["json_witnesses_judged"] += nt.get("witnesses_cited", 0)
+            stats["descriptions_resolved_by_git"] += nt.get("described", 0)
             if nt.get("permuted"):
                 stats["runs_behind_permuting_shim"] += 1
         for s in r["samples"]:
@@ -48,6 +51,8 @@ def run_campaign(chk, b, profiles, ncases, facets, sig_prefix, nontrivial_fn, ru
             chk.cov[k] = v
     chk.cov["rule"] = rule
     chk.cov["profiles"] = list(profiles)
+    if want_table and not stats["table_witnesses_judged"]:
+        chk.inconc("no table footnote was judged")
     if chk.cov["evaluations"] == 0 or len(chk._distinct) < 2:
         chk.inconc("campaign observed too few non-trivial executions")
     return results
